@@ -291,7 +291,9 @@ Definition add_request_header (cookie_ord : bytes -> gmap) (t : txv) (k v : byte
     let kl := lower_ascii k in   (* compared with two ASCII constants only *)
     if bytes_eqb kl (str "content-type"%string) then
       let vl := lower_ascii v in
-      if bytes_eqb vl dc_ct_urlencoded then set_rbp t1 (str "URLENCODED"%string)
+      (* the media type may be followed by parameters: "...urlencoded" or "...urlencoded;" prefix *)
+      if bytes_eqb vl dc_ct_urlencoded || is_prefix (dc_ct_urlencoded ++ [59]) vl
+      then set_rbp t1 (str "URLENCODED"%string)
       else if is_prefix dc_ct_multipart vl then set_rbp t1 (str "MULTIPART"%string)
       else t1
     else if bytes_eqb kl (str "cookie"%string) then
@@ -386,6 +388,38 @@ Definition jwrite := (bytes * bytes)%type.
 Definition dc_len_entry (key : bytes) (n : nat) : list jwrite :=
   match n with O => [] | _ => [(key, itoa (N.of_nat n))] end.
 
+(* the two ForEach loops of readItems, parameterised by the recursive call [rec x key'] =
+   readItems(x, key', maxRecursion-1).
+   array: returns writes, error, key under which the length entry goes, elements visited *)
+Definition dc_arr_go (rec : json -> bytes -> list jwrite * bool) (key : bytes) :=
+  fix go (i : N) (l : list json) : list jwrite * bool * bytes * nat :=
+    match l with
+    | [] => ([], false, key, 0%nat)
+    | x :: r =>
+      let k' := key ++ [46] ++ itoa i in
+      match dc_leaf x with
+      | Some v =>
+        let '(w2, e2, lk, n) := go (i + 1) r in ((k', v) :: w2, e2, lk, S n)
+      | None =>
+        let '(w, e) := rec x k' in
+        if e then (w, true, k', 1%nat)
+        else let '(w2, e2, lk, n) := go (i + 1) r in (w ++ w2, e2, lk, S n)
+      end
+    end.
+Definition dc_obj_go (rec : json -> bytes -> list jwrite * bool) (key : bytes) :=
+  fix go (l : list (bytes * json)) : list jwrite * bool :=
+    match l with
+    | [] => ([], false)
+    | (k, x) :: r =>
+      let k' := key ++ [46] ++ k in
+      match dc_leaf x with
+      | Some v => let '(w2, e2) := go r in ((k', v) :: w2, e2)
+      | None =>
+        let '(w, e) := rec x k' in
+        if e then (w, true) else let '(w2, e2) := go r in (w ++ w2, e2)
+      end
+    end.
+
 (* readItems(json, objKey, maxRecursion, res) for a container [t]; returns the writes and the
    error bit. depth = maxRecursion; 0 => error before anything is read. ForEach stops at the
    first member whose recursive call failed; in that case objKey is NOT cut back, so the
@@ -396,37 +430,9 @@ Fixpoint read_items (t : json) (depth : nat) (key : bytes) {struct t} : list jwr
   | S d =>
     match t with
     | JArr items =>
-      (* returns writes, error, key under which the length entry goes, elements visited *)
-      let fix go (i : N) (l : list json) : list jwrite * bool * bytes * nat :=
-        match l with
-        | [] => ([], false, key, 0%nat)
-        | x :: r =>
-          let k' := key ++ [46] ++ itoa i in
-          match dc_leaf x with
-          | Some v =>
-            let '(w2, e2, lk, n) := go (i + 1) r in ((k', v) :: w2, e2, lk, S n)
-          | None =>
-            let '(w, e) := read_items x d k' in
-            if e then (w, true, k', 1%nat)
-            else let '(w2, e2, lk, n) := go (i + 1) r in (w ++ w2, e2, lk, S n)
-          end
-        end in
-      let '(w, e, lk, n) := go 0 items in
+      let '(w, e, lk, n) := dc_arr_go (fun x k => read_items x d k) key 0 items in
       (w ++ dc_len_entry lk n, e)
-    | JObj ms =>
-      let fix go (l : list (bytes * json)) : list jwrite * bool :=
-        match l with
-        | [] => ([], false)
-        | (k, x) :: r =>
-          let k' := key ++ [46] ++ k in
-          match dc_leaf x with
-          | Some v => let '(w2, e2) := go r in ((k', v) :: w2, e2)
-          | None =>
-            let '(w, e) := read_items x d k' in
-            if e then (w, true) else let '(w2, e2) := go r in (w ++ w2, e2)
-          end
-        end in
-      go ms
+    | JObj ms => dc_obj_go (fun x k => read_items x d k) key ms
     | _ =>
       (* top-level scalar: gjson's ForEach calls the iterator once with a zero key, which
          readItems treats as array index 0 *)
